@@ -10,7 +10,7 @@ TRUSTED = [
     "Lean 4.33.0 kernel; axioms propext, Classical.choice, Quot.sound only (checked per theorem by #print axioms on every run)",
     "hand-written mechanism model SimVerif/Tcp.lean of tcp::socket (write_some_impl segmentation, send_packet, packet_dropped, incoming_packet with the reorder buffer, read_some_impl over a buffer sequence, close, internal_connect), transcribed statement by statement; theorems (C05_prefix, C05_written_is_accepted, C05_packets_genuine, C05_read_is_take, C05_eof_last, C05_reuse_empty, C05_reuse_attach_empty, C05_asis_stale, C05_ghost_*) hold for every label sequence of the open system SimVerif/StreamSys.lean built from these functions: ONE direction of one established connection (the opposite direction idle; the symmetric instance covers it), in which an adversarial network (a bag of in-flight packets) may deliver any packet at any time (arbitrary delay and reordering, no duplication), drop any packet carrying a drop callback (handing it back to packet_dropped), with the segmentation and retransmission loops run one iteration per label so that first-hop drops interleave anywhere; the theorems hold for all four TParams (repaired and pinned-tree window/wake-up behaviour alike)",
     "what the kernel and the queues guarantee to that open system (a packet is delivered or reported dropped at most once, unaltered) is C09/C10; ACK/EOF packets are never dropped (packet::ok_to_drop)",
-    "correspondence: simdrv drives real tcp::socket / acceptor objects (ASan+UBSan) over real sim::queue routes with probe, NAT and scripted dropper hops; simcheck kernel composes the same Tcp.lean functions with the kernel, queue and registry models and must predict every line of the implementation's trace (API results, completions with byte counts and data digests, every packet at every probe, every drop)",
+    "correspondence: simdrv drives real tcp::socket / acceptor objects (ASan+UBSan) over real sim::queue routes with probe, NAT, scripted dropper and scripted delayer hops; simcheck kernel composes the same Tcp.lean functions with the kernel, queue and registry models and must predict every line of the implementation's trace (API results, completions with byte counts and data digests, every packet at every probe, every drop)",
     "the trace-level statement (specs/tcp_stream.py) is evaluated on the implementation's own traces and does not use the model: payload bytes are regenerated from the deterministic stream function of the harness (stream_byte) and compared through the digests the harness prints (full hex up to 48 bytes, 64-bit FNV-1a above)",
 ]
 ASSUME = [
@@ -38,7 +38,7 @@ def nontrivial(impl):
 
 CHECK = ScenarioCheck(
     "C05", ["SimVerif.Props.C05"], "kernel", gen.generate, spec_c05, nontrivial,
-    "real TCP transfers over random routes (access + network queues with bw 0..100 MB/s, latency 0..100 ms, capacity 0/1600/3100/20 kB/200 kB, NAT hops, MTU 1..3000): families tcp / tcp_heavy (write sizes 1..20000 in 1..3 buffers, read capacities 1..65536 in 1..4 buffers, wait_read + non-blocking reads inside the wait's handler, non-blocking reads from timer handlers at arbitrary instants (no wait outstanding / the chain's read or wait still pending / before establishment / after the end) in ~15 % of the reader chains of every family, late accept, close/destroy at arbitrary times), drop (scripted dropper on the writer's outgoing route: every subset of the first 8 droppable data segments [thorough: all 256 x 2 directions x 2 MSS; quick: 128 sampled], random subsets of the first 14 beyond), smallread (read capacity 1..7 over 1..4 buffers, MSS 1..1475), reuse (accepted socket / client object / both closed or re-attached without close and reused with unread, in-flight or to-be-retransmitted data of the first connection), both (both sides writing); non-trivial = at least one write completed with n>0 and at least two reads returned data; distinct = distinct implementation trace",
+    "real TCP transfers over random routes (access + network queues with bw 0..100 MB/s, latency 0..100 ms, capacity 0/1600/3100/20 kB/200 kB, NAT hops, MTU 1..3000): families tcp / tcp_heavy (write sizes 1..20000 in 1..3 buffers, read capacities 1..65536 in 1..4 buffers, wait_read + non-blocking reads inside the wait's handler, non-blocking reads from timer handlers at arbitrary instants (no wait outstanding / the chain's read or wait still pending / before establishment / after the end) in ~15 % of the reader chains of every family, late accept, close/destroy at arbitrary times), drop (scripted dropper on the writer's outgoing route: every subset of the first 8 droppable data segments [thorough: all 256 x 2 directions x 2 MSS; quick: 128 sampled], random subsets of the first 14 beyond), delay (scripted delayer on the writer's outgoing route holding listed segments for 100 ns..1 s and forwarding them unchanged, so that later segments overtake them: reordering with no loss and no drop notification; every non-empty subset of the first 6 data segments x 4 delay patterns [short / long / descending = released in reverse order / random; thorough: all 63 x 4 x 2 directions x 2 MSS; quick: 112 sampled], runs of 3..6 consecutive held segments 8..30 segments into a 30..50-segment stream, random tables over the first 14, drop + delay on the same route, tiny-read / wait_read+read_nb / timer-read_nb readers), smallread (read capacity 1..7 over 1..4 buffers, MSS 1..1475), reuse (accepted socket / client object / both closed or re-attached without close and reused with unread, in-flight or to-be-retransmitted data of the first connection), both (both sides writing); non-trivial = at least one write completed with n>0 and at least two reads returned data; distinct = distinct implementation trace",
     TRUSTED, ASSUME, spec_scn=True)
 CHECK.extra_cov = lambda results: dict(monitor_stats=dict(STATS))
 
